@@ -524,7 +524,7 @@ class UDToJSON(SectionUnit):
     def pre(self, S, inp):
         s = inp['stream']
         d, o = field(s, 'data'), field(s, 'index')
-        lo = 13 if self.shard == 1 else 9
+        lo = 12 if self.shard == 1 else 8
         return And(ds_invariant(s), inp['sectionLen'] >= lo, o + inp['sectionLen'] - 8 <= field(s, 'size'),
                    byte(d, o) < 128 if self.shard == 1 else self.creator_ascii(inp))
 
